@@ -91,8 +91,12 @@ def check_case(case) -> Verdict:
     fam = case["spec"]["family"]
     ubin = "u<=-1" if case["u"] <= -1 else "-1<u<-0.5" if case["u"] < -0.5 else "|u|<0.5" if abs(case["u"]) < 0.5 \
         else "0.5<=u<1" if case["u"] < 1 else "u>=1"
-    cls = f"{fam} {ubin} {setting}"
-    v.label(f"family:{fam}", f"ubin:{ubin}", f"setting:{setting}")
+    try:
+        weak = zp.alpha_n_closed(spec1) < 1e-3
+    except Exception:  # noqa: BLE001
+        weak = False
+    cls = f"{fam} {ubin} {setting}" + (" weak" if weak else "")
+    v.label(f"family:{fam}", f"ubin:{ubin}", f"setting:{setting}", "strength:weak" if weak else "strength:normal")
     A = _run(spec1, cfg)
     if A.get("timeout"):
         v.discarded("timeout (inconclusive)")
